@@ -791,7 +791,8 @@ class Conv:
             name = "int" if k == "i" else "float"
             return name + ("(" + ",".join(args) + ")" if args else "")
         if k == "a":
-            return "any(" + ",".join(i if re.fullmatch(r"[a-z]+", i) else '"' + i + '"' for i in self.items) + ")"
+            # quoted arguments keep their text: _pythonize strips the quotes, a backslash stays a backslash
+            return "any(" + ",".join(i if re.fullmatch(r"[a-z]+", i) else (("'" + i + "'") if '"' in i else ('"' + i + '"')) for i in self.items) + ")"
         return {"u": "uuid", "p": "path"}[k]
 
     def enc(self) -> str:
@@ -1048,9 +1049,12 @@ class Adapter:
 
 
 # ---------------------------------------------------------------- generators
-LITS = ["a", "b", "ab", "x", "1", "12", "a.b", "é", "a+b", "007"]
-PRE = ["", "", "", "a", "x", "-", "v.", "("]
-ANY_ITEMS = ["a", "b", "ab", "x", "foo", "a.b", "x-y"]
+LITS = ["a", "b", "ab", "x", "1", "12", "a.b", "é", "a+b", "007", "|", "a|b"]
+PRE = ["", "", "", "a", "x", "-", "v.", "(", "|", "a|"]
+ANY_ITEMS_PLAIN = ["a", "b", "ab", "x", "foo", "a.b", "x-y"]
+ANY_ITEMS = ANY_ITEMS_PLAIN + [
+             # quoted items with backslash sequences and quotes, kept verbatim by the rule parser
+             "a\\tb", "\\n", "a\\\\b", "\\x41", "é", "it\\'s", 'q"x', "a b", "1,2"]
 NAMES = ["p", "q", "r", "s", "t", "u", "v", "w"]
 UUIDS = ["12345678-1234-5678-1234-567812345678", "ABCDEF01-aaaa-BBBB-cccc-0123456789ab"]
 
